@@ -346,6 +346,7 @@ package kernel
 
 //@ func (node *Node) lastMintDistribution
 //@   property C25
+//@   trustpre NewIntegerFromString -- (C33) its argument "89.87671232" is a string constant; that it is a non-negative decimal is assumed
 //@   uses MintFloor
 //@   requires node != nil && !isnil(node.persistStore)
 //@   maypanic   -- a storage failure and a recorded batch below 1706 (corrupt store) are fatal by design
